@@ -449,7 +449,7 @@ func evalOrders(c *vk.Ctx, cs *Case, ins []*input, orders [][]int) {
 		}
 	}
 	for _, ord := range orders {
-		evalOrder(c, cs, ins, ord, want, before)
+		evalOrder(c, cs, ins, ord, want, all, before)
 	}
 }
 
@@ -477,7 +477,7 @@ func buildAll(ins []*input, ord []int) []*profile.Profile {
 	return ps
 }
 
-func evalOrder(c *vk.Ctx, cs *Case, ins []*input, ord []int, want agg, before [][]byte) {
+func evalOrder(c *vk.Ctx, cs *Case, ins []*input, ord []int, want, all agg, before [][]byte) {
 	c.Eval()
 	c.Count("merges", 1)
 	wit := func() Case { return witness(cs, ins, ord) }
@@ -540,7 +540,7 @@ func evalOrder(c *vk.Ctx, cs *Case, ins []*input, ord []int, want agg, before []
 		c.Count("merges/finer-than-required", 1) // tolerated: split on attributes the statement does not list
 	}
 	if !got.equal(want) {
-		c.Violationf("conservation/"+classify(want, got), wit(), "expected (sum by identity over the inputs):\n%sgot (merge result, aggregated by the same identity):\n%s", want, got)
+		c.Violationf("conservation/"+classify(want, got, all), wit(), "expected (sum by identity over the inputs):\n%sgot (merge result, aggregated by the same identity):\n%s", want, got)
 	} else {
 		c.Count("merges/conserved", 1)
 	}
